@@ -27,7 +27,7 @@ RULE = ("cases: configurators over 3-6 boolean items with 1-3 rules (plain and d
         "keys; distinct by digest of (recipe, priorities)")
 BUDGET = {"quick": (12, 260, 90), "thorough": (16, 2000, 1200)}
 MANDATORY = ["judged:pair-order", "judged:argmax-set", "judged:default-prios", "count:with-defaults", "count:with-user-prios",
-             "count:user-prio-on-helper", "count:negative-user-prio", "count:ties-in-user-prios"]
+             "count:user-prio-on-helper", "count:negative-user-prio", "count:ties-in-user-prios", "count:built-from-json"]
 
 
 def clear_caches():
@@ -161,13 +161,28 @@ def install(ctx):
 
 def gen_case(rng, tier, ctx, i):
     rec = confgen.gen_config(rng)
-    return {"recipe": rec, "seed": rng.getrandbits(32), "nprios": rng.randint(1, 3)}
+    case = {"recipe": rec, "seed": rng.getrandbits(32), "nprios": rng.randint(1, 3), "route": "json" if rng.random() < 0.25 else "ctor"}
+    if rng.random() < 0.2:
+        # replacement for one rule: same explicit id, same kind of rule, another default / other alternatives
+        idx = rng.randrange(len(rec["args"]))
+        old = rec["args"][idx]
+        if old["k"] in ("ccAny", "ccXor") and old.get("id") and old.get("default"):
+            alt = [a["id"] for a in old["args"] if a["id"] != old["default"][0]]
+            if alt:
+                new = dict(old, default=[rng.choice(alt)])
+                case["edit"] = {"index": idx, "rule": new}
+    return case
 
 
 def run_case(case, ctx):
     rng = random.Random(case["seed"])
     clear_caches()
-    cfg = recipes.fresh(case["recipe"])
+    if case.get("route") == "json":
+        import json
+        ctx.count("count:built-from-json")
+        cfg = ctx.call("StingyConfigurator.from_json", cc.StingyConfigurator.from_json, json.loads(json.dumps(confgen.config_json(case["recipe"]))))
+    else:
+        cfg = recipes.fresh(case["recipe"])
     v = adapters.validated(cfg)
     if v is None:
         raise monitor.OutOfScope()
@@ -190,3 +205,30 @@ def run_case(case, ctx):
         ctx.check(False, "pair-order", lambda: {"recipe": case["recipe"], "note": "solver callable was never invoked"})
         return
     judge(ctx, case, cfg, rec, prios_list)
+    # the same configurator object after one of its rules was replaced in place by a rule with the same id: the objective
+    # must be the one of the configurator as it is now
+    edit = case.get("edit")
+    if edit is not None and edit["index"] < len(case["recipe"]["args"]):
+        new_recipe = dict(case["recipe"], args=list(case["recipe"]["args"]))
+        new_recipe["args"][edit["index"]] = edit["rule"]
+        fresh2 = recipes.fresh(new_recipe)
+        if adapters.validated(fresh2) is None:
+            return
+        target = case["recipe"]["args"][edit["index"]]
+        pos = [i for i, p_ in enumerate(cfg.propositions) if p_.id == recipes.fresh(target).id]
+        if len(pos) != 1:
+            return
+        cfg.propositions[pos[0]] = recipes.fresh(edit["rule"])
+        cfg.propositions.sort()
+        if digest_state(cfg) != digest_state(fresh2):
+            return
+        ctx.count("count:in-place-rule-replacement")
+        rec2 = {}
+        ctx.call("select", lambda: list(cfg.select(*[dict(p) for p in prios_list], solver=confgen.exact_solver_factory(rec2))))
+        if "objectives" in rec2:
+            judge(ctx, dict(case, recipe=new_recipe), cfg, rec2, prios_list)
+
+
+def digest_state(obj):
+    from .. import digest
+    return digest.state(obj)
